@@ -380,7 +380,7 @@ theorem rshift_total (V : Valuation) (l r : BitVec 64) (hn : 0 ≤ V.val r) :
   · have : ¬ V.val r < 0 := by omega
     simp [denoteInt, denoteCall, slowSpec, this]
 
-theorem rshift_no_ub' (l r : BitVec 64) : CPyTagged_Rshift_ub l r = false := rshift_no_ub l r
+theorem rshift_no_ub (l r : BitVec 64) : CPyTagged_Rshift_ub l r = false := CFastProofs.rshift_no_ub l r
 
 example : CPyTagged_Rshift 18446744073709551602#64 2#64 = .fast 18446744073709551608#64 := by decide  -- -7 >> 1 = -4
 example : CPyTagged_Rshift 18446744073709551602#64 400#64 = .fast 18446744073709551614#64 := by decide -- -7 >> 200 = -1
@@ -416,7 +416,7 @@ theorem lshift_total (V : Valuation) (l r : BitVec 64) (hn : 0 ≤ V.val r) :
   · have : ¬ V.val r < 0 := by omega
     simp [denoteInt, denoteCall, slowSpec, this]
 
-theorem lshift_no_ub' (l r : BitVec 64) : CPyTagged_Lshift_ub l r = false := lshift_no_ub l r
+theorem lshift_no_ub (l r : BitVec 64) : CPyTagged_Lshift_ub l r = false := CFastProofs.lshift_no_ub l r
 
 example : CPyTagged_Lshift 6#64 8#64 = .fast 96#64 := by decide                            -- 3 << 4 = 48
 example : (CPyTagged_Lshift 2#64 124#64).isSlow = true := by decide                         -- 1 << 62 does not fit
